@@ -994,6 +994,31 @@ theorem lookupProof_uses_live_only (st : State) (H : SdnsVerif.Model.Nsec3.HashF
       · exact ih h (fun y hy => hsub y (List.mem_cons_of_mem _ hy))
     · exact ih h (fun y hy => hsub y (List.mem_cons_of_mem _ hy))
 
+/-- **A re-admitted proof RRset is replaced, not merged** (`recordWithKind`:
+`byID` replacement): after the entries `new` of a bundle are folded into a
+zone's resident entries `old`, every resident entry is either one of the
+bundle's (carrying the deadline computed from that bundle) or an old entry
+whose owner the bundle does not mention — an owner the bundle re-proves never
+keeps an old record or an old deadline. -/
+theorem proof_entries_replaced (new : List ProofEntry) : ∀ (old : List ProofEntry) (e : ProofEntry),
+    e ∈ new.foldl upsert old → e ∈ new ∨ (e ∈ old ∧ ∀ n ∈ new, n.nsec.owner ≠ e.nsec.owner) := by
+  induction new with
+  | nil => intro old e h; exact Or.inr ⟨h, fun n hn => nomatch hn⟩
+  | cons x t ih =>
+    intro old e h
+    simp only [List.foldl_cons] at h
+    rcases ih (upsert old x) e h with h1 | ⟨h1, h2⟩
+    · exact Or.inl (List.mem_cons_of_mem _ h1)
+    · unfold upsert at h1
+      simp only [List.mem_append, List.mem_filter, bne_iff_ne, ne_eq, List.mem_singleton] at h1
+      rcases h1 with ⟨hm, hne⟩ | rfl
+      · refine Or.inr ⟨hm, ?_⟩
+        intro n hn
+        rcases List.mem_cons.mp hn with rfl | hn
+        · exact fun e' => hne e'.symm
+        · exact h2 n hn
+      · exact Or.inl (List.mem_cons_self ..)
+
 /-- **Re-admission replaces, it never extends.**  Whatever the order of
 admissions, after a bundle is recorded every subtree cut for its denied name
 carries exactly the deadline computed from THIS bundle's own records (ceiling,
@@ -1030,6 +1055,9 @@ theorem admitCut_replaces (st : State) (b : Bundle) :
 example : (admitCut { now := 0, cutMax := 600, cuts := [{ denied := [[122], [98]], expires := 500 }] }
     { zone := [[122]], nx := true, subject := [[122], [98]], soaTtl := 300, soaMin := 300, soaSigs := [⟨300, 300, 20⟩],
       cut := none, sets := [] }).cuts.map (·.expires) = [20] := by decide
+
+example : ([⟨⟨[[1]], [[2]], 1, []⟩, 50⟩].foldl upsert [⟨⟨[[1]], [[2]], 1, []⟩, 900⟩, ⟨⟨[[3]], [[4]], 1, []⟩, 700⟩]).map (·.expires)
+    = [700, 50] := by decide
 
 theorem cutWalk_spec (st : State) (q : Name) : ∀ (k : Nat) (c : CutEntry), cutWalk st q k = some c →
     c ∈ st.cuts ∧ st.now < c.expires ∧ ∃ j, 1 ≤ j ∧ j ≤ k ∧ c.denied = q.take j := by
